@@ -56,6 +56,8 @@ INNER_PLAIN = ["ls", "ls -la", "cat f", "echo hi", "git status", "okcmd a", "rm 
 # still matched against them (textually - the words are container paths), exactly as it would be locally
 SLASH_WORDS = ["s/enforcing/disabled/", "example.com/install.sh", "./x", "a/b", "/etc/shadow", "~/k", "../y", "x/", "//z", "http://h/p", "a/../b",
                "/", ".", "..", "~", "*/c", "d/*.txt"]
+WS_RULES = 'deny  wsa  x  "W1"\nask wsb\t-v  y\ndeny\twsc   --force *\nallow   wsd   run\n'
+WS_INNER = ["wsa x", "wsa x y", "wsb -v y", "wsc --force z", "wsd run", "timeout 5 wsa x", "sh -c 'wsa x'"]
 SLASH_RULES = "".join(f'deny frob{i} {w} "M{i}"\nask quux{i} -v {w}\n' for i, w in enumerate(SLASH_WORDS))
 INNER_PATHY = [("rm /etc/passwd", "rm x"), ("cat /etc/passwd", "cat f"), ("ls /jail/secret", "ls")]
 OUTER = [  # (template with {E} = the exec command, text of the outer part judged alone)
@@ -122,6 +124,16 @@ def run(tier, seed, replay=None):
                                    "program": text, "config": CFG, "signature_text": text})
         correspond(text)
     # (a') rules with path-shaped words still decide inside the container
+    cfg_ws = parse_config(CFG + WS_RULES)
+    for e, inner in itertools.product(execs, WS_INNER):
+        text = f"{e} {inner}"
+        v_exec = an.analyze(text, cfg_ws, Path(cwd)).action
+        v_in = an.analyze(inner, cfg_ws, Path(cwd)).action
+        out.case(["ws-rule", text])
+        out.count("shape", "rule-with-blanks")
+        if v_exec != v_in:
+            out.violations.append({"kind": "inner-differs", "what": f"{text!r} is judged {v_exec} but the inner command alone {v_in} (a rule written with several blanks decides it)",
+                                   "program": text, "inner": inner, "config": CFG + WS_RULES, "signature_text": text})
     cfg_slash = parse_config(CFG + SLASH_RULES)
     for e, (i, w) in itertools.product(execs, list(enumerate(SLASH_WORDS))):
         for inner in (f"frob{i} {w}", f"frob{i} {w} extra", f"quux{i} -v {w}", f"timeout 5 frob{i} {w}", f"sh -c 'frob{i} {w}'"):
